@@ -270,6 +270,11 @@ func replayC03(i int, raw json.RawMessage, seed int64) hx.Result {
 	nt := ntOf(&r)
 	if res := runC03(&r, seed); res != nil {
 		res.NT = nt
+		if r.Refuse {
+			res.Key = "C03/build-or-refuse/num=" + r.Proto.Num + "/" + strings.TrimPrefix(res.Key, "C03/")
+			res.What = fmt.Sprintf("EventBuilder.Build handed out an event for a proto-event whose content holds a number of class %q (%s), which is not an event of room version %s; the event then fails: %s",
+				r.Proto.Num, numValue(r.Proto.Num), r.Ver, res.What)
+		}
 		return *res
 	}
 	return hx.Result{OK: true, NT: nt}
@@ -288,6 +293,9 @@ func ntOf(r *rec) string {
 	dl := ""
 	if isDomainless(r.Ver) {
 		dl = "|domainless"
+	}
+	if r.Proto.Num != "" && r.Proto.Num != "none" {
+		dl += fmt.Sprintf("|num=%s|refuse=%v", r.Proto.Num, r.Refuse)
 	}
 	return fmt.Sprintf("%s|fmt%d|algo%d%s|%s|%s|%s|%s|%v", r.Fam, r.IDFmt, algoOf(r.Ver), dl, r.Proto.Type, strings.Join(ops, ","),
 		strings.Join(reds, ""), r.F, r.Same)
@@ -314,8 +322,15 @@ func runC03(r *rec, seed int64) *hx.Result {
 	}
 	b := protoOf(r.Ver, &r.Proto, seed)
 	p, err := b.build(r.Ver)
+	if err != nil && r.Refuse {
+		return nil // Build either refuses (no event: nothing to hold) or hands out an event that satisfies every clause
+	}
 	if err != nil {
 		return fail("C03/build/error", fmt.Sprintf("EventBuilder.Build fails (room version %s): %v", r.Ver, err), nil, err.Error())
+	}
+	if r.Refuse && len(r.Steps) == 0 {
+		// the specification expects a refusal; an event was handed out: it must at least be an event for everybody
+		r.Steps = []step{{Op: "RU", Idc: 1}, {Op: "RT", Idc: 1}, {Op: "RH", Idc: 1}, {Op: "RD", Idc: 1, Red: true}}
 	}
 	base, acc, pan := observe(p)
 	if pan != "" {
